@@ -3,6 +3,8 @@ package main
 import (
 	"fmt"
 	"go/token"
+	"go/types"
+	"sort"
 
 	"golang.org/x/tools/go/ssa"
 )
@@ -132,18 +134,40 @@ type point struct {
 // findPath searches for a path that starts at one of the start points, never executes an
 // instruction satisfying avoid, follows only feasible edges, and reaches an instruction
 // satisfying target. It returns the witness (list of blocks) or nil.
+//
+// The search is path-sensitive for boolean phis (the SSA form of && / || and of boolean
+// variables assigned constants): a phi takes the value of its incoming edge when that value is a
+// constant, a known phi, or fixed by boolVal, and an If on a known value follows only that edge.
 func findPath(starts []point, edges EdgeFilter, avoid, target InstrPred) []*ssa.BasicBlock {
+	return findPathV(starts, edges, avoid, target, nil)
+}
+
+type boolValFn func(v ssa.Value) (bool, bool)
+
+func findPathV(starts []point, edges EdgeFilter, avoid, target InstrPred, boolVal boolValFn) []*ssa.BasicBlock {
 	if edges == nil {
 		edges = allEdges
 	}
 	type st struct {
-		p    point
-		prev int
+		p     point
+		prev  int
+		facts map[*ssa.Phi]bool
 	}
 	var queue []st
-	visited := map[*ssa.BasicBlock]bool{} // visited from index 0
+	visited := map[string]bool{} // block index + facts
+	fkey := func(b *ssa.BasicBlock, f map[*ssa.Phi]bool) string {
+		if len(f) == 0 {
+			return fmt.Sprintf("%d", b.Index)
+		}
+		var parts []string
+		for ph, v := range f {
+			parts = append(parts, fmt.Sprintf("%s=%v", ph.Name(), v))
+		}
+		sortStrings(parts)
+		return fmt.Sprintf("%d|%v", b.Index, parts)
+	}
 	for _, s := range starts {
-		queue = append(queue, st{s, -1})
+		queue = append(queue, st{s, -1, nil})
 	}
 	mk := func(k int) []*ssa.BasicBlock {
 		var rev []*ssa.BasicBlock
@@ -155,6 +179,28 @@ func findPath(starts []point, edges EdgeFilter, avoid, target InstrPred) []*ssa.
 			rev[i], rev[j] = rev[j], rev[i]
 		}
 		return rev
+	}
+	// known evaluates a boolean value under the facts / boolVal.
+	var known func(v ssa.Value, f map[*ssa.Phi]bool) (bool, bool)
+	known = func(v ssa.Value, f map[*ssa.Phi]bool) (bool, bool) {
+		if b, ok := constBool(v); ok {
+			return b, true
+		}
+		if u, ok := v.(*ssa.UnOp); ok && u.Op == token.NOT {
+			if b, ok := known(u.X, f); ok {
+				return !b, true
+			}
+			return false, false
+		}
+		if ph, ok := v.(*ssa.Phi); ok {
+			if b, ok := f[ph]; ok {
+				return b, true
+			}
+		}
+		if boolVal != nil {
+			return boolVal(v)
+		}
+		return false, false
 	}
 	for qi := 0; qi < len(queue); qi++ {
 		cur := queue[qi]
@@ -177,15 +223,61 @@ func findPath(starts []point, edges EdgeFilter, avoid, target InstrPred) []*ssa.
 			if !edges(b, si) {
 				continue
 			}
-			if visited[s] {
+			if iff, ok := b.Instrs[len(b.Instrs)-1].(*ssa.If); ok {
+				if v, ok := known(iff.Cond, cur.facts); ok {
+					if (v && si != 0) || (!v && si != 1) {
+						continue
+					}
+				}
+			}
+			// facts for the successor
+			var nf map[*ssa.Phi]bool
+			pi := -1
+			for k, pb := range s.Preds {
+				if pb == b {
+					pi = k
+				}
+			}
+			for k, v := range cur.facts {
+				if k.Block() != s { // phis of s are recomputed below
+					if nf == nil {
+						nf = map[*ssa.Phi]bool{}
+					}
+					nf[k] = v
+				}
+			}
+			for _, sin := range s.Instrs {
+				ph, ok := sin.(*ssa.Phi)
+				if !ok {
+					break
+				}
+				if bt, isB := ph.Type().Underlying().(*types.Basic); !isB || bt.Kind() != types.Bool {
+					continue
+				}
+				if pi >= 0 && pi < len(ph.Edges) {
+					if v, ok := known(ph.Edges[pi], cur.facts); ok {
+						if nf == nil {
+							nf = map[*ssa.Phi]bool{}
+						}
+						nf[ph] = v
+					}
+				}
+			}
+			k := fkey(s, nf)
+			if visited[k] {
 				continue
 			}
-			visited[s] = true
-			queue = append(queue, st{point{s, 0}, qi})
+			visited[k] = true
+			queue = append(queue, st{point{s, 0}, qi, nf})
+			if len(queue) > 200000 {
+				return nil
+			}
 		}
 	}
 	return nil
 }
+
+func sortStrings(s []string) { sort.Strings(s) }
 
 func entryPoint(fn *ssa.Function) []point {
 	if len(fn.Blocks) == 0 {
